@@ -402,6 +402,9 @@ fn simplify_raw<'l>(arg: &mut Argument<'l>) -> Result<bool, SimplifyError>
 										.ok_or_else(|| OverflowError::Divide{lhs: Number::Integer(*lhs_val), rhs: Number::Integer(rhs_val)})
 								}
 							},
+							ArgumentType::BitAnd => Ok(*lhs_val & rhs_val),
+							ArgumentType::BitOr => Ok(*lhs_val | rhs_val),
+							ArgumentType::BitXor => Ok(*lhs_val ^ rhs_val),
 							_ => unreachable!(),
 						}?;
 						// splice out the rhs constant argument
